@@ -161,7 +161,7 @@ def main():
         cctx = core.Ctx(cid, 0, 1, 'quick', int(seed))
         cctx.sandbox_dir = sandbox_dir
         mod.setup(cctx)
-        extra = (0,) if cid == 'C06' else ()
+        extra = {'C06': (0,), 'C03': (10000, False), 'C01': (None, False)}.get(cid, ())      # the remaining fields of that check's text-carrying case kind
 
         def target_check(data):
             try:
